@@ -27,3 +27,5 @@ import PPProofs.Props.C06Rec
 #print axioms PP.Parse.entry_points_terminate_depth
 #print axioms PP.Parse.recursive_terminates_partial
 #print axioms PP.Parse.recursive_terminates_checked_partial
+#print axioms PP.Parse.recursive_terminates_depth_partial
+#print axioms PP.Parse.entry_points_terminate_rec_partial
